@@ -22,6 +22,35 @@ def key(repo):
     return h.hexdigest()[:20]
 
 
+def parse_blocks(text):
+    """attribute output to harnesses: with -j the result of a harness is printed under `Thread N:` without its name"""
+    cur = {}      # thread -> harness
+    blocks = {}
+    active = None
+    single = None
+    for line in text.split("\n"):
+        m = re.match(r"^(?:Thread (\d+): )?Checking harness harnesses::(\w+)\.\.\.", line)
+        if m:
+            t = m.group(1)
+            if t is None:
+                single = m.group(2)
+                active = single
+            else:
+                cur[t] = m.group(2)
+                active = None
+            blocks.setdefault(m.group(2), "")
+            continue
+        m = re.match(r"^Thread (\d+):\s*$", line)
+        if m:
+            active = cur.get(m.group(1))
+            continue
+        if line.startswith("Manual Harness Summary") or line.startswith("Complete - "):
+            active = None
+        if active:
+            blocks[active] = blocks.get(active, "") + line + "\n"
+    return blocks
+
+
 def run(names, repo="/repo", jobs=3, timeout_min=45, use_cache=None):
     if use_cache is None:
         use_cache = os.environ.get("VERIF_KANI_CACHE", "1") != "0"
@@ -41,35 +70,34 @@ def run(names, repo="/repo", jobs=3, timeout_min=45, use_cache=None):
         r = subprocess.run(cmd, cwd=KANI, env=env, stdout=subprocess.PIPE, stderr=subprocess.STDOUT, text=True)
         wall = time.time() - t0
         text = r.stdout
-        # split per harness
-        blocks = re.split(r"(?m)^(?:Thread \d+: )?Checking harness harnesses::", text)
         build_failed = "error: could not compile" in text or ("error[" in text and "Checking harness" not in text)
-        seen = {}
-        for b in blocks[1:]:
-            name = re.match(r"(\w+)", b).group(1)
-            seen[name] = b
-        # with -j > 1 the blocks interleave; fall back to whole-text matching per harness
+        blocks = parse_blocks(text)
         for n in todo:
             res = {"harness": n, "from_cache": False, "computed_at": time.strftime("%Y-%m-%dT%H:%M:%SZ", time.gmtime()),
                    "batch_wall_s": round(wall, 1), "cmd": " ".join(cmd)}
+            blk = blocks.get(n)
             if build_failed:
                 res["status"] = "build-failed"
                 res["detail"] = text[-1500:]
+            elif blk is None:
+                res["status"] = "unknown"
+                res["detail"] = "no result block for this harness"
             else:
-                m = re.search(r"(?s)Verification failed for - harnesses::%s\b" % n, text)
-                ok = re.search(r"(?s)Checking harness harnesses::%s\.\.\..*?VERIFICATION:- (SUCCESSFUL|FAILED)" % n, seen.get(n, "") and ("Checking harness harnesses::" + seen[n]) or text)
-                if m or (ok and ok.group(1) == "FAILED"):
-                    res["status"] = "failed"
-                    fb = re.findall(r"Failed Checks: ([^\n]*)\n(?:\s*File: ([^\n]*))?", seen.get(n, text))
-                    res["failed_checks"] = [" @ ".join(x for x in f if x) for f in fb][:10]
-                elif ok and ok.group(1) == "SUCCESSFUL":
-                    res["status"] = "ok"
-                elif re.search(r"harnesses::%s.*timed out|timed out.*harnesses::%s" % (n, n), text):
+                if "CBMC timed out" in blk or "timed out" in blk:
                     res["status"] = "timeout"
+                elif "out of memory" in blk:
+                    res["status"] = "out-of-memory"
+                elif "VERIFICATION:- SUCCESSFUL" in blk:
+                    res["status"] = "ok"
+                elif "VERIFICATION:- FAILED" in blk:
+                    res["status"] = "failed"
+                    res["failed_checks"] = [x.strip() for x in re.findall(r"Failed Checks: ([^\n]*)", blk)][:10]
+                    if not res["failed_checks"]:
+                        res["status"] = "unknown"
+                        res["detail"] = blk[-600:]
                 else:
                     res["status"] = "unknown"
-                    res["detail"] = seen.get(n, "")[-800:]
-                blk = seen.get(n, "")
+                    res["detail"] = blk[-600:]
                 mt = re.search(r"Verification Time: ([0-9.]+)s", blk)
                 if mt:
                     res["verification_time_s"] = float(mt.group(1))
